@@ -148,6 +148,19 @@ fn expected_message(locale: &str, default_locale: &str, tables: &[(String, Vec<(
     None
 }
 
+/// the same chain for an implementation that compares locale names without regard to letter case (the statement
+/// does not say; a client reports `de_de` where an operator may have written `de_DE`)
+fn expected_message_ci(locale: &str, default_locale: &str, tables: &[(String, Vec<(String, String)>)], key: &str) -> Option<String> {
+    let lowered: Vec<(String, Vec<(String, String)>)> = tables.iter().map(|(l, m)| (l.to_lowercase(), m.clone())).collect();
+    expected_message(&locale.to_lowercase(), &default_locale.to_lowercase(), &lowered, key)
+}
+
+/// locales a client may legally report (any string of up to 16 characters) that are not shaped like `ll_cc`
+pub const ODD_LOCALES: [&str; 34] = [
+    "en_us (my pack v", "{}", "[", "en_us*", "a(b", "\\", ".*", "en_US)", "$", "^en", "en|de", "de_DE?", "\u{130}_TR", "\u{212a}_KK", "\u{1c5}_xx", "\u{df}_SS", "EN_US", "De_dE", "en-US", "en__us",
+    "__", "en_", "_us", " en_us", "en_us ", "%s", "%n", "{0}", "../en", "en\u{0}us", "\u{202e}de", "nds_de", "fil_ph", "ksh",
+];
+
 fn text_view(msg: &str) -> Value {
     if msg.starts_with('{') {
         fn nbt(v: &Value) -> Value {
@@ -287,7 +300,8 @@ fn judge(s: &Spec, obs: &Obs) -> Vec<(String, String)> {
             let (d, tbl) = table(&s.table);
             if let Some(msg) = expected_message(&s.locale, &d, &tbl, "disconnect_no_target") {
                 if let Pkt::ConfDisconnect { reason } = disconnects[0] {
-                    if *reason != text_view(&msg) {
+                    let ci = expected_message_ci(&s.locale, &d, &tbl, "disconnect_no_target");
+                    if *reason != text_view(&msg) && ci.as_deref().map(text_view).as_ref() != Some(reason) {
                         // classify: did the server answer in the default locale's message?
                         let default_msg = expected_message(&d, &d, &tbl, "disconnect_no_target");
                         let class = if default_msg.as_deref().map(text_view).as_ref() == Some(reason) { "default-locale-used" } else { "other-text" };
@@ -295,7 +309,8 @@ fn judge(s: &Spec, obs: &Obs) -> Vec<(String, String)> {
                     }
                 }
             }
-            if !matches!(&obs.result, RunResult::Err { kind, .. } if kind == "NoTargetFound") {
+            // (the connection ends; which value the handler returns for a refused player is its own business)
+            if matches!(&obs.result, RunResult::Horizon | RunResult::Panic(_)) {
                 bad("no-target-result".into(), format!("{:?}", obs.result));
             }
         }
@@ -362,6 +377,11 @@ fn specs(thorough: bool) -> Vec<Spec> {
     let long = "l".repeat(64);
     let locales = ["en_us", "en_gb", "en", "de_de", "de_at", "de_AT", "de", "fr_FR", "fr_ca", "pt_pt", "pt", "xx_yy", "", "_", "de_", "a_b_c", "de_de_x", "DE_de", long.as_str()];
     let tables = ["en+de+de_at", "de_de-only", "none", "default-absent", "default-de", "exact-default", "full-names", "mixed", "plain-text"];
+    for l in ODD_LOCALES {
+        for tb in ["en+de+de_at", "exact-default", "plain-text"] {
+            v.push(Spec { disc: "v4".into(), filter: "identity".into(), strat: "none".into(), locale: l.into(), table: tb.into(), lat: [0, 0, 0], ka_stall: None, cookie_target: None });
+        }
+    }
     for l in locales {
         for tb in tables {
             for (d, st) in [("v4", "none"), ("empty", "pick-0")] {
